@@ -46,6 +46,11 @@ class Inconclusive(Exception):
     """A bound/cap was exceeded or the solver answered unknown on a deciding query."""
 
 
+class StopAtAlloc(Exception):
+    """raised (on request, ctx.extra['stop_at_alloc']) when code asks for an array of symbolic size: lets a
+    harness run the prologue of a real function whose body it replaces by a recorder"""
+
+
 class ModelGap(Exception):
     """The code used something the model does not cover: harness error, never 'holds'."""
 
